@@ -367,6 +367,27 @@ func checkC20(c *Ctx, r *Report) {
 	// ... and the analog-format parsers and the conversion formula are applied to the raw byte of
 	// the response on every read (rule shared with C15)
 	checkSensorRead(c, r)
+	// ... BCD bytes are decoded whole where the wire carries them (Get Device ID minor firmware
+	// revision, SDR version: layouts shared with C07) ...
+	r.Rule("bcd-on-the-wire", "every response field the specification gives in BCD is bcd(·) of the whole specified byte or bit range", 1)
+	for _, sp := range responseSpecs {
+		sub := sp
+		sub.Want = map[string][]string{}
+		for k, v := range sp.Want {
+			for _, e := range v {
+				if strings.Contains(e, "bcd(") {
+					sub.Want[k] = v
+				}
+			}
+		}
+		if len(sub.Want) > 0 {
+			compareSpec(c, r, []layerSpec{sub}, "field", nil)
+		}
+	}
+	// ... and an ID string of any length, zero included, is what the string decoder returned for
+	// the record's own type/length byte (shared with C07, C14)
+	checkIDStringHeader(c, r)
+	checkDecoderAssignment(c, r, "record-decoder-overwrites", 1, func(n *types.Named) bool { return n.Obj().Name() == "FullSensorRecord" })
 
 	r.Rule("bcd-normal-form", "bcd.Decode(b) = 10·b[7:4] + b[3:0]", 1)
 	if f := c.Func("internal/pkg/bcd", "Decode"); f == nil {
